@@ -35,8 +35,8 @@ import (
 
 func init() {
 	register("C19", core.Spec{
-		Decides:    "the bounded-write shape of lib/uncompng.(*Encoder).Encode: for the filter byte and each of the six depth|colorType cases, the tuple (row slice multiplier S, guard threshold, stores e.buf[ej+d] = row[s], increment of ej, row advance, loop trip count) equals the tuple derived from PNG's sample layout (S = advance = (depth/8)*source channels; K = increment = (depth/8)*channels of the PNG colour type written in IHDR; stores are exactly (d, d) for d < K because source and PNG are both channel-major, big-endian; the filter byte is the constant 0); the guard (flush when ej > T, with T + K <= ejMax) or the recovery `ej = eiLater` precedes every store on every CFG path, no store follows the increment or the row advance within an iteration, the recovery is flush(w, ej, false) then ej = eiLater; the constants satisfy eiFirst <= ejMax, eiLater + max K <= ejMax, ejMax + 8 <= len(buf), ejMax - min(eiFirst, eiLater) <= 0xFFFF; nothing else in Encode assigns ej or row or touches the receiver; every flush error is returned; every success exit is `flush(w, ej, true)`; pngFileFormatEncoding is {Gray:0, RGBX:2, NRGBA:6} and its channel count matches each case's K; init writes byte(depth) and that encoding at IHDR offsets 0x18/0x19; invalid depth/colour type arguments are rejected before any write so the six cases are exhaustive",
-		NotDecided: "everything value-level inside flush/init/updateAdler32/crc32IEEE: chunk lengths, CRC-32 and Adler-32 values, the zlib header and stored-block LEN/NLEN bytes, the first-chunk versus later-chunk layout (that ei inside flush is eiFirst then eiLater), the in-buffer Adler state at buf[0xFFFC:], IEND placement, reuse of one Encoder for several images, the no-allocation promise, and whether pix is long enough for the given stride/height (a short pix panics; that is the caller's contract). The rules are necessary structural conditions of `decodes to exactly the input pixels`, not a proof of it",
+		Decides:    "the bounded-write shape of lib/uncompng.(*Encoder).Encode: for the filter byte and each of the six depth|colorType cases, the tuple (row slice multiplier S, guard threshold, stores e.buf[ej+d] = row[s], increment of ej, row advance, loop trip count) equals the tuple derived from PNG's sample layout (S = advance = (depth/8)*source channels; K = increment = (depth/8)*channels of the PNG colour type written in IHDR; stores are exactly (d, d) for d < K because source and PNG are both channel-major, big-endian; the filter byte is the constant 0); the guard (flush when ej > T, with T + K <= ejMax) or the recovery `ej = eiLater` precedes every store on every CFG path, no store follows the increment or the row advance within an iteration, the recovery is flush(w, ej, false) then ej = eiLater; the constants satisfy eiFirst <= ejMax, eiLater + max K <= ejMax, ejMax + 8 <= len(buf), ejMax - min(eiFirst, eiLater) <= 0xFFFF; nothing else in Encode assigns ej or row or touches the receiver; every flush error is returned; every success exit is `flush(w, ej, true)`; pngFileFormatEncoding is {Gray:0, RGBX:2, NRGBA:6} and its channel count matches each case's K; init writes byte(depth) and that encoding at IHDR offsets 0x18/0x19; invalid depth/colour type arguments are rejected before any write so the six cases are exhaustive; (I, reuse of one Encoder) on every CFG path init stores every byte of the fixed prefix that flush does not rewrite itself (signature, IHDR length/type/payload, IDAT type, zlib header) with the values PNG prescribes, computed from its arguments and constants only; the IHDR CRC bytes are on every path the big-endian bytes of crc32IEEE over chunk type + payload computed after the last store into that range; the in-buffer Adler-32 state is reset to a=1, b=0 at the indices updateAdler32 uses; the first-chunk sentinel byte is re-armed by init and cleared by flush after a non-final Write; eiFirst/eiLater equal the header sizes of that layout",
+		NotDecided: "everything value-level inside flush/init/updateAdler32/crc32IEEE: chunk lengths, CRC-32 and Adler-32 values, the zlib header and stored-block LEN/NLEN bytes, the first-chunk versus later-chunk layout (that ei inside flush is eiFirst then eiLater), the in-buffer Adler state at buf[0xFFFC:], IEND placement, the no-allocation promise (of reuse only the clauses I.* about init/flush state are decided), and whether pix is long enough for the given stride/height (a short pix panics; that is the caller's contract). The rules are necessary structural conditions of `decodes to exactly the input pixels`, not a proof of it",
 		Assumptions: []string{
 			"go/types, go/cfg (x/tools v0.29.0) model Go control flow faithfully; go/cfg does not split && / ||, conditions are matched as whole expressions",
 			"PNG (W3C REC-PNG-20031110) §11.2.2: colour type 0/2/6 has 1/3/4 samples per pixel in the order R,G,B,A; 16-bit samples are stored most significant byte first; bit depths 8 and 16 are legal for colour types 0, 2 and 6; filter type 0 means the row bytes are stored unfiltered; IHDR payload is width(4) height(4) bit depth(1) colour type(1) …, after an 8-byte signature and an 8-byte chunk header",
@@ -484,6 +484,7 @@ func runC19(c *core.Ctx) {
 
 	table := x.colourTable(flEnc) // H1
 	x.run(table, flInit)
+	x.initReuse(flInit, flFlush) // I.* (c19_init.go)
 }
 
 // ---------------- H1: pngFileFormatEncoding ----------------
